@@ -445,7 +445,7 @@ func (x *c15) run(rng *rand.Rand, caseNo int) {
 			victims = append(victims, c)
 		}
 	}
-	cause := pick(rng, []string{"expiry", "refresh0", "control-close", "relay-read-error", "relay-accept-error", "relay-write-error", "server-close", "server-close"})
+	cause := pick(rng, []string{"expiry", "refresh0", "control-close", "relay-read-error", "relay-accept-error", "relay-write-error", "relay-closed-underneath", "server-close", "server-close"})
 	if len(victims) == 0 {
 		cause = "server-close"
 	}
@@ -524,6 +524,22 @@ func (x *c15) run(rng *rand.Rand, caseNo int) {
 					w.Settle()
 					m.ClientClosed(v)
 				}
+			}
+		case "relay-closed-underneath":
+			// the relay socket / listener is closed under the server's feet (the operator's generator
+			// handed out something it tears down itself): the allocation ends, and closing the relay a
+			// second time fails - everything else of the allocation is released all the same
+			if res != nil {
+				if res.Kind == "udp" {
+					_ = res.UDP.Close()
+				} else {
+					_ = res.L.Close()
+				}
+				w.Settle()
+				m.ClientClosed(v)
+			} else {
+				cause = "refresh0"
+				m.Refresh(v, sim.U32(0))
 			}
 		case "relay-accept-error":
 			if res != nil && res.Kind == "listener" {
@@ -632,6 +648,13 @@ func init() {
 			return 1000
 		},
 		Run: func(t *testing.T, rng *rand.Rand, rec *sim.Rec, tier string, caseNo int) {
+			if caseNo%40 == 19 {
+				// an allocation ends while its Connect is still dialling: the connection that dial
+				// produces later is released as well
+				runSlowConnect(t, rng, rec, tier, caseNo)
+
+				return
+			}
 			if caseNo%8 == 7 {
 				// peer TCP connections are resources too: RFC 6062 histories with teardowns
 				runC16(t, rng, rec, tier, caseNo)
